@@ -261,7 +261,7 @@ func TestC05_History(t *testing.T) {
 			"op": func(t *rapid.T) {
 				blk := gen.BytesN(16).Draw(t, "block")
 				dec := rapid.Bool().Draw(t, "decrypt")
-				layout := rapid.SampledFrom([]string{"disjoint", "same", "adjacent"}).Draw(t, "layout")
+				layout := rapid.SampledFrom([]string{"disjoint", "same", "adjacent", "open_ended", "open_ended_same"}).Draw(t, "layout")
 				want := make([]byte, 16)
 				if dec {
 					r.Decrypt(want, blk)
@@ -278,20 +278,44 @@ func TestC05_History(t *testing.T) {
 				case "adjacent":
 					src = buf[0:16]
 					dst = buf[16:32]
+				case "open_ended":
+					// cipher.Block: "Encrypt encrypts the FIRST block in src into dst" - slices longer than a block
+					// are legal (a caller walking a buffer passes buf[off:]); only 16 bytes may be read and written
+					long := make([]byte, 96)
+					gen.Fill(long, uint64(steps)+77)
+					src = long[0:48]
+					dst = long[48:96]
+				case "open_ended_same":
+					long := make([]byte, 64)
+					gen.Fill(long, uint64(steps)+99)
+					src = long
+					dst = long
+					inplace = true
 				default:
 					src = make([]byte, 16)
 					dst = make([]byte, 16)
 				}
 				copy(src, blk)
+				dstBefore := append([]byte{}, dst...)
+				srcBefore := append([]byte{}, src...)
 				if dec {
 					c.Decrypt(dst, src)
 				} else {
 					c.Encrypt(dst, src)
 				}
+				if len(dst) > 16 {
+					if !bytes.Equal(dst[16:], dstBefore[16:]) {
+						t.Fatalf("history %v layout=%s: the call changed bytes of dst beyond the first block", hist, layout)
+					}
+					if layout == "open_ended" && !bytes.Equal(src, srcBefore) {
+						t.Fatalf("history %v layout=%s: source modified", hist, layout)
+					}
+					dst, src = dst[:16], src[:16]
+				}
 				if !bytes.Equal(dst, want) {
 					t.Fatalf("history %v then dec=%v layout=%s key=%x block=%x: got %x want %x", hist, dec, layout, key, blk, dst, want)
 				}
-				if layout != "same" && !bytes.Equal(src, blk) {
+				if layout != "same" && layout != "open_ended_same" && !bytes.Equal(src, blk) {
 					t.Fatalf("source modified (layout %s)", layout)
 				}
 				if layout == "adjacent" && !bytes.Equal(buf[32:], make([]byte, 16)) {
